@@ -28,37 +28,6 @@ Fixpoint parts_of (calls : list pcall) (s e : bytes) : list part :=
   | (s', e', ps) :: t => if beqb s' s && beqb e' e then ps else parts_of t s e
   end.
 
-(* ---------- equality of messages ---------- *)
-Definition smsg_eqb (x y : smsg) : bool :=
-  (m_rev x =? m_rev y) && list_eqb okv_eqb (m_kvs x) (m_kvs y) && Bool.eqb (m_more x) (m_more y) && Bool.eqb (m_err x) (m_err y).
-
-(* is `out` an interleaving of the lists `ls`?  Greedy: sound, and complete when no two lists can
-   offer the same message at once (partitions carry disjoint keys) *)
-Fixpoint take_head (x : smsg) (ls : list (list smsg)) : option (list (list smsg)) :=
-  match ls with
-  | [] => None
-  | [] :: t => match take_head x t with Some t' => Some ([] :: t') | None => None end
-  | (y :: l) :: t =>
-      if smsg_eqb x y then Some (l :: t)
-      else match take_head x t with Some t' => Some ((y :: l) :: t') | None => None end
-  end.
-
-Fixpoint interleave_check (ls : list (list smsg)) (out : list smsg) : bool :=
-  match out with
-  | [] => forallb (fun l => match l with [] => true | _ => false end) ls
-  | x :: o => match take_head x ls with Some ls' => interleave_check ls' o | None => false end
-  end.
-
-Definition stream_check (r : stream_res) (out : list smsg) : bool :=
-  match r with
-  | StPanic => false
-  | StOk pp term =>
-      match rev out with
-      | [] => false
-      | last :: rdata => smsg_eqb last term && interleave_check pp (rev rdata)
-      end
-  end.
-
 Fixpoint pairs_of {A} (l : list A) : list (A * A) :=
   match l with
   | x :: ((y :: _) as t) => (x, y) :: pairs_of t
@@ -99,32 +68,31 @@ Fixpoint insert_okv (x : okv) (l : list okv) : list okv :=
   end.
 Definition sort_okv (l : list okv) : list okv := fold_right insert_okv [] l.
 
-(* one stream: data batches all carry the read revision, are marked `more`, carry no error and at
-   least one kv; exactly one terminator, last, without error (no faults are injected) *)
-Definition stream_shape (R : N) (out : list smsg) : bool :=
-  match rev out with
-  | [] => false
-  | last :: rdata =>
-      (m_rev last =? R) && negb (m_more last) && negb (m_err last) && (match m_kvs last with [] => true | _ => false end)
-      && forallb (fun m => (m_rev m =? R) && m_more m && negb (m_err m) && (match m_kvs m with [] => false | _ => true end)) rdata
-  end.
-Definition stream_kvs (out : list smsg) : list okv := flat_map m_kvs out.
+(* finding C13-F1: Backend.GetPartitions advertises the engine's partitions in the order the engine lists
+   them (the scanner sorts them, GetPartitions does not) *)
+Definition parts_sorted (ps : list part) : bool := sortedb (fun x y => bltb (fst x) (fst y)) ps.
 
-Definition group_verdict (s : raw_store) (cur : N) (g : c13_group) : bool :=
+Definition group_verdict (s : raw_store) (cur : N) (calls : list pcall) (g : c13_group) : option N :=
   let R := eff_rev (g_rev g) cur in
   match g_base g with
   | LResp _ base _ =>
-      (* the unpartitioned read is the snapshot of the stored versions *)
-      list_eqb okv_eqb base (in_range (g_a g) (g_b g) (snapshot (versions_of (data_of s)) R))
-      && (match g_list g with LResp _ kvs more => list_eqb okv_eqb kvs base && negb more | _ => false end)
-      && (if R =? cur then match g_count g with CResp _ n => n =? N.of_nat (length base) | _ => false end else true)
-      && stream_shape R (g_whole g)
-      && list_eqb okv_eqb (sort_okv (stream_kvs (g_whole g))) base
-      && (length (g_pairs g) + 1 =? length (snd (g_parts g)))%nat
-      && forallb (stream_shape R) (g_pairs g)
-      && list_eqb okv_eqb (sort_okv (flat_map stream_kvs (g_pairs g))) base
-  | _ => true          (* range refused (a >= b, empty end, below the floor): outside the property *)
+      if
+        (* the unpartitioned read is the snapshot of the stored versions *)
+        list_eqb okv_eqb base (in_range (g_a g) (g_b g) (snapshot (versions_of (data_of s)) R))
+        && (match g_list g with LResp _ kvs more => list_eqb okv_eqb kvs base && negb more | _ => false end)
+        && (if R =? cur then match g_count g with CResp _ n => n =? N.of_nat (length base) | _ => false end else true)
+        && stream_shape R (g_whole g)
+        && list_eqb okv_eqb (sort_okv (stream_kvs (g_whole g))) base
+        && (length (g_pairs g) + 1 =? length (snd (g_parts g)))%nat
+        && forallb (stream_shape R) (g_pairs g)
+      then
+        if list_eqb okv_eqb (sort_okv (flat_map stream_kvs (g_pairs g))) base then None
+        else if parts_sorted (parts_of calls (encode (g_a g) 0) (encode (g_b g) 0)) then Some 0 else Some 1
+      else Some 0
+  | _ => None          (* range refused (a >= b, empty end, below the floor): outside the property *)
   end.
 
 Definition c13_oracle (c : c13_case) : option N :=
-  ok_if (forallb (fun t => forallb (group_verdict (p_dump c) (p_cur c)) (t_groups t)) (p_tilings c)).
+  fold_right (fun t acc =>
+      fold_right (fun g acc' => worst (group_verdict (p_dump c) (p_cur c) (t_calls t) g) acc') acc (t_groups t))
+    None (p_tilings c).
